@@ -87,7 +87,9 @@ class EndToEndStream(Stream):
                 seen = set()
                 for kind, key, style in order[i:i + size]:
                     name = G.name_for(kind, key, rng if sweep else None)
-                    if name.lower() in seen:
+                    if name.lower() in seen or (name.endswith(".license") and o.get("dot") == "force"):
+                        # (a file that is itself called X.license, annotated with --force-dot-license, gets X.license.license: the
+                        # sibling-of-a-sibling corner is outside the model's routes and outside the property's quantifier)
                         continue
                     seen.add(name.lower())
                     body, planted = G.rand_body(rng, style)
@@ -113,6 +115,8 @@ class EndToEndStream(Stream):
                 f["sib"] = rng.choice(["", "SPDX-FileCopyrightText: 2001 Sibling Holder\n\nSPDX-License-Identifier: Zlib\n"])
             if rng.random() < 0.35:
                 o["style"] = rng.choice(shorthands)
+            if f["name"].endswith(".license") and o.get("dot") == "force":
+                o["dot"] = None     # see above
             yield dict(o, files=[f], cpr=cpr, lic=lic, con=con)
         # every --style value forced on a file of another type, both line modes
         for sh in (shorthands if thorough else rng.sample(shorthands, 9)):
